@@ -51,6 +51,15 @@ class Untranslatable(Exception):
     pass
 
 
+# atoms a function's skeleton MUST contain: the source shape the proofs are about.  `_get_percentile_intermediate_result_over_trials`
+# has to compute the MAXIMIZE case as the mirror of the MINIMIZE case (repair of F41); the older `percentile = 100 - percentile`
+# shape is rejected here (and would also fail gen_percentile_over_trials / gen_percentileOverTrials_tables).
+REQUIRED_ATOMS = {
+    "percentileOverTrials": ["float(-np.nanpercentile(-values, percentile))", "float(np.nanpercentile(values, percentile))"],
+}
+FORBIDDEN_LOCALS = {"percentileOverTrials": ["percentile"]}
+
+
 def norm(node: ast.AST) -> str:
     return " ".join(ast.unparse(node).split())
 
@@ -335,7 +344,16 @@ def generate() -> str:
             p = os.path.join(core.REPO, "optuna", "pruners", rel)
             with open(p) as f:
                 mods[rel] = ast.parse(f.read(), filename=p)
-        out.append(FnTr(find(mods[rel], path), lean_name, "%s::%s" % (rel, path)).lean())
+        tr = FnTr(find(mods[rel], path), lean_name, "%s::%s" % (rel, path))
+        text = tr.lean()
+        for a in REQUIRED_ATOMS.get(lean_name, []):
+            if a not in tr.atoms:
+                raise Untranslatable("%s: the expression `%s` is not in the source (an unsupported formulation, e.g. the pre-F41 "
+                                     "`percentile = 100 - percentile`)" % (path, a))
+        for n in FORBIDDEN_LOCALS.get(lean_name, []):
+            if n in tr.locals:
+                raise Untranslatable("%s: `%s` is re-assigned (pre-F41 formulation `percentile = 100 - percentile`)" % (path, n))
+        out.append(text)
     out.append("end OptunaVerif.Generated.PrunersSkel")
     return "\n".join(out) + "\n"
 
